@@ -28,13 +28,26 @@ APPEND_EXCEPTIONS = {
 def _flatten_conditions(conds):
     """(test, polarity) list -> list of atomic (expr, polarity) known on the path."""
     out = []
+
+    def push(e, pol):
+        while isinstance(e, ast.UnaryOp) and isinstance(e.op, ast.Not):
+            e, pol = e.operand, not pol
+        if pol and isinstance(e, ast.BoolOp) and isinstance(e.op, ast.And):
+            for c in e.values:
+                push(c, True)
+        elif not pol and isinstance(e, ast.BoolOp) and isinstance(e.op, ast.Or):
+            for c in e.values:
+                push(c, False)
+        else:
+            out.append((e, pol))
+
     for test, pol in conds:
         if pol:
             for c in conjuncts(test):
-                out.append((c, True))
+                push(c, True)
         else:
             for d in disjuncts(test):
-                out.append((d, False))
+                push(d, False)
     return out
 
 
